@@ -25,6 +25,7 @@ def build(prop, engine, meta, tier, seed, tasks, results, wall, det, known_seen,
     distinct_nontrivial = set()
     steps = 0
     sim_time = 0.0
+    sets = {}
     samples = []
     by_tag = Counter()
     seeds_main = []
@@ -38,6 +39,8 @@ def build(prop, engine, meta, tier, seed, tasks, results, wall, det, known_seen,
         faults.update(st.get("faults") or {})
         probes.update(st.get("probes") or {})
         oracle_checks.update(st.get("oracle_checks") or {})
+        for k, v in (st.get("sets") or {}).items():
+            sets.setdefault(k, set()).update(v)
         steps += int(st.get("steps") or 0)
         sim_time += float(st.get("sim_time") or 0.0)
         d = r.get("sched_digest")
@@ -77,6 +80,7 @@ def build(prop, engine, meta, tier, seed, tasks, results, wall, det, known_seen,
             "probes": dict(sorted(probes.items())),
             "probes_at_zero": sorted(k for k, v in probes.items() if v == 0),
             "oracle_checks": dict(sorted(oracle_checks.items())),
+            "distinct_sets": {k: {"count": len(v), "sample": sorted(v)[:25]} for k, v in sorted(sets.items())},
             "components": meta.COMPONENTS,
             "determinism_selftest": det,
             "known_findings_seen": known_seen,
